@@ -32,7 +32,27 @@ def check(pid, tier, args):
             o.write(json.dumps(c) + "\n")
     out = os.path.join(sc, "c10")
     os.makedirs(out, exist_ok=True)
-    p = vlib.run([drive, "imagexform", "-cases", cases, "-out", out, "-tier", tier, "-seed", str(vlib.seed())], timeout=3000)
+    cmd = [drive, "imagexform", "-cases", cases, "-out", out, "-tier", tier, "-seed", str(vlib.seed())]
+    p = vlib.run(cmd, timeout=3000, check=False)
+    if p.returncode != 0:
+        # a panic inside one of the library's worker goroutines cannot be recovered by the
+        # caller: the process dies.  That death is an observation of the real code; find
+        # the configuration by re-running single-threaded with a marker before each run.
+        if "goroutine" not in p.stderr or "mandykoh" not in p.stderr:
+            raise vlib.Infra("imagexform driver failed: %s" % p.stderr[-1500:])
+        marker = os.path.join(sc, "xform_marker.ndjson")
+        p2 = vlib.run(cmd + ["-serial", marker], timeout=6000, check=False)
+        if p2.returncode == 0:
+            raise vlib.Infra("driver crash did not reproduce single-threaded: %s" % p.stderr[-1500:])
+        last = json.loads(open(marker).read().strip().splitlines()[-1])
+        first_line = [l for l in p2.stderr.splitlines() if l.startswith("panic:") or l.startswith("fatal error:")][:1]
+        run.violation({"finding_key": None, "crashing_run": last, "stderr": p2.stderr[:1500]},
+                      "process died (%s) in %s %s->%s parallelism %d on cfg %s" % (
+                          first_line[0] if first_line else "crash", last["xform"], last["src"], last["dst"], last["par"],
+                          json.dumps(last["cfg"])))
+        run.cov["traces_validated_against_impl"] = 0
+        run.sample(last)
+        return run.finish()
     stats = json.loads(p.stdout.strip().splitlines()[-1])
     # 3a. binding G: real transforms, every byte against the specification's map
     nbad = 0
